@@ -492,6 +492,10 @@ func checkLoopForm(res *ShapeResult, fn *ssa.Function, at ssa.Instruction, data 
 		res.add("SHAPE-2", false, at, "the new attribute array is not a single make([]T, n) in this function")
 		return
 	}
+	if k, ok := ssau.ConstInt(dst.Len); ok && k == 0 {
+		checkAppendForm(res, fn, at, data, dst, arraySrc, cfg, attrOut)
+		return
+	}
 	// source = what sizes dst
 	var src ssa.Value
 	switch l := dst.Len.(type) {
@@ -592,6 +596,98 @@ func checkLoopForm(res *ShapeResult, fn *ssa.Function, at ssa.Instruction, data 
 		vals = append(vals, st.Val)
 	}
 	checkParamsReach(res, fn, vals, at, cfg, attrOut)
+}
+
+// checkAppendForm: the array is built as `out := make([]T, 0[, n]); for i over src { out = append(out, f(src[i])) }`:
+// exactly one element is appended, unconditionally, in a loop that runs i over the whole source, and the
+// element is computed from src[i].
+func checkAppendForm(res *ShapeResult, fn *ssa.Function, at ssa.Instruction, data ssa.Value, dst *ssa.MakeSlice, arraySrc ssa.Value, cfg ShapeConfig, attrOut ssa.Value) {
+	var apps []*ssa.Call
+	for r := range aliasRoots(data) {
+		if c, ok := r.(*ssa.Call); ok && ssau.Builtin(c) == "append" {
+			apps = append(apps, c)
+		}
+	}
+	if len(apps) != 1 {
+		res.add("SHAPE-2", false, at, "the new attribute array is built by "+itoa(len(apps))+" appends; one append per element in one loop is the recognised form")
+		return
+	}
+	app := apps[0]
+	// the single appended element
+	var elem ssa.Value
+	if sl, ok := app.Call.Args[1].(*ssa.Slice); ok {
+		if arr, ok := sl.X.(*ssa.Alloc); ok {
+			if at, ok := arr.Type().Underlying().(*types.Pointer).Elem().Underlying().(*types.Array); ok && at.Len() == 1 {
+				for _, r := range ssau.Refs(arr) {
+					if ia, ok := r.(*ssa.IndexAddr); ok {
+						for _, rr := range ssau.Refs(ia) {
+							if st, ok := rr.(*ssa.Store); ok && st.Addr == ia {
+								elem = st.Val
+							}
+						}
+					}
+				}
+			}
+		}
+	}
+	if elem == nil {
+		res.add("SHAPE-2", false, app, "append does not add exactly one element per iteration")
+		return
+	}
+	loops := ssau.Loops(fn)
+	l := ssau.InnermostLoop(loops, app.Block())
+	if l == nil {
+		res.add("SHAPE-4", false, app, "append is not inside a loop")
+		return
+	}
+	// the source read and its index
+	var src ssa.Value
+	var idx ssa.Value
+	other := false
+	for d := range backward(elem, false) {
+		if rd, ok := readOf(d); ok {
+			if _, isIter := rd.src.Type().Underlying().(*types.Pointer); isIter || true {
+				if src == nil {
+					src, idx = rd.src, rd.idx
+				} else if sameSource(rd.src, src) && rd.idx != idx {
+					other = true
+				}
+			}
+		}
+	}
+	if src == nil {
+		res.add("SHAPE-2", false, app, "the appended element does not depend on an element of the source")
+		return
+	}
+	if other {
+		res.add("SHAPE-2", false, app, "the appended element is computed from more than one element of the source")
+		return
+	}
+	if arraySrc != nil {
+		res.add("SHAPE-2", sameSource(src, arraySrc), app, "element appended from the input array")
+	} else {
+		attrIn, ok := attrOfSource(src, fn, cfg)
+		if !ok {
+			res.add("SHAPE-1", false, app, "the array the elements are computed from is not an attribute of the input mesh")
+		} else {
+			res.add("SHAPE-1", sameString(attrIn, attrOut), app, "attribute read "+constOrName(attrIn)+" vs attribute written "+constOrName(attrOut))
+		}
+	}
+	phi, off := counterOf(idx, l)
+	uncond := true
+	for _, latch := range l.Latch {
+		if !app.Block().Dominates(latch) {
+			uncond = false
+		}
+	}
+	if phi == nil {
+		res.add("SHAPE-4", false, app, "the source is not read at the counter of the loop the append sits in")
+		return
+	}
+	full, why := fullRange(phi, off, idx, l, src, dst, false)
+	res.add("SHAPE-2", uncond && full, app, map[bool]string{true: "one element appended per source element, in order (same length, element j from element j)", false: "append is conditional or the loop does not cover the whole source: " + why}[uncond && full])
+	res.add("SHAPE-4", uncond && full, app, "append form: unconditional, full range")
+	checkParamsReach(res, fn, []ssa.Value{elem}, at, cfg, attrOut)
 }
 
 // counterOf: idx is the loop's counter: the header phi itself, or phi+1 (the form range loops take,
